@@ -306,3 +306,60 @@ func ReadReplayOps(path string) ([]string, error) {
 	}
 	return v.Ops, nil
 }
+
+// CorpusOps loads /verif/corpus/<ID>/*.ops (one op per line, '#' comments),
+// sorted by file name.  Minimised past failures run first on every run.
+func CorpusOps(id string) [][]string {
+	dir := os.Getenv("VERIF_DIR")
+	if dir == "" {
+		dir = "/verif"
+	}
+	ents, err := os.ReadDir(dir + "/corpus/" + id)
+	if err != nil {
+		return nil
+	}
+	var out [][]string
+	for _, e := range ents {
+		if !strings.HasSuffix(e.Name(), ".ops") {
+			continue
+		}
+		bs, err := os.ReadFile(dir + "/corpus/" + id + "/" + e.Name())
+		if err != nil {
+			continue
+		}
+		var ops []string
+		for _, l := range strings.Split(string(bs), "\n") {
+			l = strings.TrimSpace(l)
+			if l != "" && !strings.HasPrefix(l, "#") {
+				ops = append(ops, l)
+			}
+		}
+		out = append(out, ops)
+	}
+	return out
+}
+
+// WithTimeout runs fn in a goroutine and reports whether it returned within d.
+// A function that never returns leaks its goroutine; use it for observations
+// ("did not return"), not for clean-up.
+func WithTimeout(d time.Duration, fn func()) bool {
+	done := make(chan struct{})
+	go func() {
+		defer close(done)
+		fn()
+	}()
+	select {
+	case <-done:
+		return true
+	case <-time.After(d):
+		return false
+	}
+}
+
+// RepoDir is the repository under test (for harnesses that need source files).
+func RepoDir() string {
+	if d := os.Getenv("VERIF_REPO"); d != "" {
+		return d
+	}
+	return "/repo"
+}
